@@ -149,6 +149,21 @@ MUTANTS: Dict[str, List[M]] = {
         ("cycle check before registration", "_link_arguments.py", "        # Add link action to group to show in help\n        parser._links_group._group_actions.append(self)\n\n        # Check instantiation link does not create cycle\n        if apply_on == \"instantiate\":\n            try:\n                self.instantiation_order(parser)\n            except ValueError as ex:\n                raise ValueError(f\"Invalid link {source[0]} --> {target}: {ex}\") from ex\n", "        # Check instantiation link does not create cycle\n        if apply_on == \"instantiate\":\n            try:\n                self.instantiation_order(parser)\n            except ValueError as ex:\n                raise ValueError(f\"Invalid link {source[0]} --> {target}: {ex}\") from ex\n\n        # Add link action to group to show in help\n        parser._links_group._group_actions.append(self)\n", "C16.a"),
         ("applied links not recorded", "_link_arguments.py", "            applied_links.add(action)\n", "", "C16.d"),
     ],
+    "C17": [
+        ("other sections only partly deleted", "_actions.py", "for key in [k for k in subcommand_keys if k != subcommand]:", "for key in subcommand_keys[1:]:", "C17.c"),
+        ("other sections deleted without the prefix", "_actions.py", "                del cfg[prefix + key]", "                del cfg[key]", "C17.c"),
+        ("other sections deleted only when they are non-empty", "_actions.py", "                del cfg[prefix + key]", "                if cfg[prefix + key]:\n                    del cfg[prefix + key]", "C17.c"),
+        ("fallback overrides the explicit key", "_actions.py", "        elif len(subcommand_keys) > 0 and (fail_no_subcommand or require_single):", "        if len(subcommand_keys) > 0 and (fail_no_subcommand or require_single):", "C17.b"),
+        ("fallback takes the last candidate", "_actions.py", "cfg[dest] = subcommand = subcommand_keys[0]", "cfg[dest] = subcommand = subcommand_keys[-1]", "C17.b"),
+        ("candidates sorted by name", "_actions.py", "[k for k in action.choices.keys() if isinstance(cfg.get(prefix + k), Namespace)]", "[k for k in sorted(action.choices.keys()) if isinstance(cfg.get(prefix + k), Namespace)]", "C17.b"),
+        ("fallback choice not stored", "_actions.py", "cfg[dest] = subcommand = subcommand_keys[0]", "subcommand = subcommand_keys[0]", "C17.a"),
+        ("argv name stored only for known subcommands", "_actions.py", "        namespace[self.dest] = subcommand\n\n        # parse arguments\n        if subcommand in self._name_parser_map:\n", "        # parse arguments\n        if subcommand in self._name_parser_map:\n            namespace[self.dest] = subcommand\n", "C17.a"),
+        ("nested levels only when the section got defaults", "_actions.py", "            if subparser._subparsers is not None:\n                _ActionSubCommands.handle_subcommands(", "            if subparser._subparsers is not None and subnamespace is not None:\n                _ActionSubCommands.handle_subcommands(", "C17.d"),
+        ("nested level addressed with the outer prefix", "_actions.py", 'subparser, cfg, env, defaults, key + ".", fail_no_subcommand=fail_no_subcommand', "subparser, cfg, env, defaults, prefix, fail_no_subcommand=fail_no_subcommand", "C17.d"),
+        ("sub-parser defaults override the given section", "_actions.py", "cfg[key] = subparser.merge_config(cfg.get(key, Namespace()), subnamespace)", "cfg[key] = subparser.merge_config(subnamespace, cfg.get(key, Namespace()))", "C17.e"),
+        ("environment read under the defaults flag", "_actions.py", "                if env:\n                    subnamespace = subparser.parse_env(defaults=defaults, _skip_validation=True)\n                elif defaults:", "                if defaults:\n                    subnamespace = subparser.parse_env(defaults=defaults, _skip_validation=True)\n                elif env:", "C17.e"),
+        ("unknown names rejected only when required", "_actions.py", "            if subcommand not in action._name_parser_map:", "            if action._required and subcommand not in action._name_parser_map:", "C17.f"),
+    ],
     "C18": [
         ("dump inside the write handle", "_core.py", '            content = self.dump(cfg, **dump_kwargs)  # type: ignore[arg-type]\n            with open(path_fc.absolute, "w") as f:\n                f.write(content)', '            with open(path_fc.absolute, "w") as f:\n                f.write(self.dump(cfg, **dump_kwargs))', "C18.a"),
         ("sub-file written before the main dump", "_core.py", "                            outputs.append((val_path, val_str))\n", '                            with open(val_path.absolute, "w") as f:\n                                f.write(val_str)\n', "C18.a2"),
